@@ -160,7 +160,8 @@ def create_target_file_name(
 
     # File name shall contain the scope the parsed dict had been reduced to
     if scope:
-        _scope: list[str] = [str(key) for key in scope]
+        # a key may contain path separators ('a/b'); they must not turn the file name into a path into a sub-folder
+        _scope: list[str] = [re.sub(pattern=r"[\\/]", repl="_", string=str(key)) for key in scope]
         scope_suffix = "_" + "_".join(_scope)
         file_name += scope_suffix
 
